@@ -265,7 +265,10 @@ Section Spec.
     | [_] => None
     end.
   Definition spec_mapv (l : list sval) :=
-    match l with x :: dflt :: kv => if missing x then Some dflt else map_lookup x kv dflt | _ => None end.
+    match l with
+    | x :: dflt :: kv => if negb (Nat.even (List.length kv)) then None           (* keys and values come in pairs *)
+                         else if missing x then Some dflt else map_lookup x kv dflt
+    | _ => None end.
   (* "Concatinate strings" *)
   Definition spec_concat (l : list sval) := match l with [SStr a; SStr b] => Some (SStr (a ++ b)) | _ => None end.
   (* "Trim string start (inclusive) to stop (exclusive)" *)
